@@ -1011,6 +1011,13 @@ func (w *Worker) indexAddr(st *State, f *Frame, x *ssa.IndexAddr) {
 
 func (w *Worker) index(st *State, f *Frame, x *ssa.Index) {
 	idx := w.get(st, f, x.Index).(Term)
+	if idx.Sort != SBV64 {
+		signed := true
+		if bt, ok := x.Index.Type().Underlying().(*types.Basic); ok {
+			_, signed = intWidth(bt)
+		}
+		idx = bvResize(idx, 64, signed)
+	}
 	switch b := w.get(st, f, x.X).(type) {
 	case ArrayV:
 		w.obligation(st, "index-out-of-range", x.Pos(), mkOr(bvCmp("bvslt", idx, mkBV(0, 64)), bvCmp("bvsge", idx, mkBV(uint64(len(b)), 64))))
@@ -1993,6 +2000,9 @@ func growCap(oldCap, newLen int, elemSize int64) int {
 
 // ---- package initialisation -------------------------------------------------------------
 
+// gInitForked: packages whose initialiser forked (only the first path was kept).
+var gInitForked []string
+
 func (e *Engine) runInits(order []*ssa.Package) error {
 	st := newState()
 	// globals of the repo's packages
@@ -2023,7 +2033,11 @@ func (e *Engine) runInits(order []*ssa.Package) error {
 			return fmt.Errorf("package initialiser %s: %v", p.Pkg.Path(), job.Inconclusive)
 		}
 		if len(w.sch.stack) > 0 {
-			return fmt.Errorf("package initialiser %s forked", p.Pkg.Path())
+			// the initialiser ranged over a map (or made another choice): the checks run from
+			// the state in which every such range went in insertion order (A-init, reported
+			// in the evidence); order dependence inside initialisers is outside the claim
+			w.sch.stack = nil
+			gInitForked = append(gInitForked, p.Pkg.Path())
 		}
 	}
 	st.frames = nil
